@@ -306,10 +306,27 @@ func c15Pkg(r *ev.Run, pc *C15Pkg) error {
 	}
 	r.Count("valid_requests_captured", len(caps))
 
+	// operations that declare a request body (from the document's own declarations)
+	opHasBody := map[string]bool{}
+	{
+		byRoute := map[string]bool{}
+		for _, pb := range pc.Probes {
+			if len(pb.ContentTypes) > 0 {
+				byRoute[pb.Method+" "+pb.Path] = true
+			}
+		}
+		for _, op := range pkg.Ops {
+			if byRoute[op.Method+" "+op.Path] {
+				opHasBody[op.Name] = true
+			}
+		}
+	}
 	// lastArgs: what the handler received in the latest serve call ("" when it did not run)
 	lastArgs := ""
+	lastStatus := 0
 	serve := func(raw []byte, hand *http.Request, class string, fail bool) {
 		lastArgs = ""
+		lastStatus = 0
 		var req *http.Request
 		if hand != nil {
 			req = hand
@@ -343,6 +360,7 @@ func c15Pkg(r *ev.Run, pc *C15Pkg) error {
 		r.Distinct(pc.Origin + "|" + class + "|" + string(raw) + fmt.Sprint(hand != nil, fail))
 		r.Count("class_"+class, 1)
 		st := w.status()
+		lastStatus = st
 		r.Count(fmt.Sprintf("status_%d", st), 1)
 		wit := func() map[string]any {
 			m := map[string]any{"origin": pc.Origin, "class": class, "status_codes_written": w.codes, "handler_invoked": handler, "not_found_calls": nf, "method_not_allowed_calls": na, "handler_scripted_to_fail": fail}
@@ -434,6 +452,14 @@ func c15Pkg(r *ev.Run, pc *C15Pkg) error {
 			if st < 200 || st > 599 {
 				viol("handler-ok-status", fmt.Sprintf("handler succeeded, status %d", st))
 			}
+			// over-acceptance: the operation takes a body, the request declares a Content-Type that is not of the form
+			// type/subtype - no media type (or media range) of the document can match it
+			if ctv := req.Header.Get("Content-Type"); hand == nil && ctv != "" && opHasBody[handler[0]] && req.ContentLength != 0 {
+				mt := strings.TrimSpace(strings.SplitN(ctv, ";", 2)[0])
+				if tp, sub, ok := strings.Cut(mt, "/"); !ok || tp == "" || sub == "" || strings.Contains(sub, "/") {
+					viol("content-type-without-subtype-accepted", fmt.Sprintf("handler %s ran although the Content-Type %q names no media type", handler[0], ctv))
+				}
+			}
 			// over-acceptance: a JSON body that reached the handler must be one well-formed JSON text
 			if hand == nil && strings.HasPrefix(strings.ToLower(req.Header.Get("Content-Type")), "application/json") && req.ContentLength != 0 && len(req.TransferEncoding) == 0 {
 				body := bodyBytes
@@ -478,8 +504,20 @@ func c15Pkg(r *ev.Run, pc *C15Pkg) error {
 	for _, c := range caps {
 		serve(c.raw, nil, "valid", false)
 		base := lastArgs
-		for _, m := range c15Mutants(c.raw, rng, pc.Muts) {
+		baseStatus := lastStatus
+		for mi, m := range c15Mutants(c.raw, rng, pc.Muts) {
 			serve(m.raw, nil, m.class, false)
+			// history independence: after a request whose body could not be read to its declared end (and now and then
+			// after any other), the valid request is served again and must be answered as it was the first time
+			if base != "" && (m.class == "content-length" || m.class == "body-truncated" || m.class == "multipart-truncated" || mi%97 == 96) {
+				keepArgs := lastArgs
+				serve(c.raw, nil, "valid-again", false)
+				if lastArgs != base || lastStatus != baseStatus {
+					r.Violate("serve/answer-depends-on-earlier-request", fmt.Sprintf("%s: after a request of class %s the valid request is answered differently: status %d -> %d, handler arguments %s -> %s", pc.Origin, m.class, baseStatus, lastStatus, clip([]byte(base)), clip([]byte(lastArgs))),
+						map[string]any{"origin": pc.Origin, "earlier_request_class": m.class, "earlier_request": clip(m.raw), "request": clip(c.raw), "first_answer": map[string]any{"status": baseStatus, "handler_received": clip([]byte(base))}, "later_answer": map[string]any{"status": lastStatus, "handler_received": clip([]byte(lastArgs))}})
+				}
+				lastArgs = keepArgs
+			}
 			if m.class == "query-repeated-other-value" && base != "" && lastArgs == base {
 				// is the repeated key an operation parameter at all? A security credential in the query is not
 				// (the security handler takes the first value); dropping an operation parameter changes what the
@@ -722,7 +760,9 @@ func c15Mutants(raw []byte, rng *ev.Rand, n int) []c15Mut {
 			add(setHeader(name, "", body), "header-emptied")
 		}
 	}
-	for _, ctv := range []string{"text/plain", "application/json; charset=utf-8", "application/json;", "APPLICATION/JSON", "application/xml", "", "multipart/form-data", "multipart/form-data; boundary=nope", "application/x-www-form-urlencoded", "*/*", "application/json, text/plain", "a/b/c", ";;;"} {
+	for _, ctv := range []string{"text/plain", "application/json; charset=utf-8", "application/json;", "APPLICATION/JSON", "application/xml", "", "multipart/form-data", "multipart/form-data; boundary=nope", "application/x-www-form-urlencoded", "*/*", "application/json, text/plain", "a/b/c", ";;;",
+		// a type without subtype (mime.ParseMediaType accepts it): no media type or media range matches it
+		"application", "application; q=1", "text", "multipart; boundary=x", "image"} {
 		add(setHeader("Content-Type", ctv, body), "content-type")
 	}
 	add(setHeader("Content-Type", "\x00drop", body), "content-type-dropped")
